@@ -468,6 +468,13 @@ def check(ctx: Ctx):
     from ..rules import purity as _purity
 
     _purity.check_late_binding(ctx, ("droplets.image_analysis",))
+    # the located droplets are a function of the field and the threshold alone: nothing on the way from the image to the
+    # droplets may consult module-level state filled by earlier analyses (caches keyed too coarsely)
+    sub_p = Ctx(ctx.model, ctx.prop, ctx.tier)
+    _purity.check_stateless(sub_p, ["droplets.image_analysis.locate_droplets"])
+    ctx.findings.extend(f for f in sub_p.findings if f.rule == "STATELESS" and (f.verdict == "violated" or f.site == "droplets.image_analysis.locate_droplets"))
+    ctx.functions |= sub_p.functions
+    ctx.expect("STATELESS", 1)
     ctx.expect("LATEBIND", 1)
     ctx.expect("THRESH", 9)
     ctx.expect("EXHAUST", 3)
